@@ -411,6 +411,66 @@ theorem svc_restart_path (env : Env) (it : Item) (hk : it.kind = .svc) (hp : it.
     · simp [itemIter, itemStep, svcStep, hk, hp, hc, recoverRet, recovered_ne_nil, hs]
     · simp [hk, Item.cw]
 
+/-- Number of runs of a service worker whose function produces the outcomes `os` (then nil), module not stopping. -/
+def svcRuns : List Outcome → Nat
+  | [] => 1
+  | o :: r => if o.restarts then 1 + svcRuns r else 1
+
+theorem itemIter_succ (env : Env) (n : Nat) (it it1 : Item) (e : Eff)
+    (h : itemStep env it false = some (it1, e)) : itemIter env (n + 1) it = itemIter env n it1 := by
+  simp [itemIter, h]
+
+/-- From the loop head, a service worker that is never told to stop runs its function once per outcome up to
+    and including the first nil / context.Canceled, then leaves. -/
+theorem svc_loop_runs (env : Env) (hs : env.stopFlag = false) : ∀ (os : List Outcome) (it : Item),
+    it.kind = .svc → it.pc = 1 → it.outs = os →
+    ∃ n it', itemIter env n it = some it' ∧ it'.kind = .svc ∧ it'.pc = 7 ∧ it'.runs = it.runs + svcRuns os := by
+  intro os
+  induction os with
+  | nil =>
+    intro it hk hp ho
+    refine ⟨5, { it with pc := 7, cur := .ok, runs := it.runs + 1, ret := some .nil }, ?_, by simp [hk], rfl, by simp [svcRuns]⟩
+    simp [itemIter, itemStep, svcStep, hk, hp, hs, Item.take, ho, recoverRet]
+  | cons o r ih =>
+    intro it hk hp ho
+    -- the state after the run with outcome o, at the recover block
+    have base : ∀ n, itemIter env (n + 2) it =
+        itemIter env n { it with pc := 3, cur := o, outs := r, runs := it.runs + 1, pans := it.pans + (if o.isPanic then 1 else 0) } := by
+      intro n
+      simp [itemIter, itemStep, svcStep, hk, hp, hs, Item.take, ho]
+    cases o with
+    | ok =>
+      refine ⟨5, { it with pc := 7, cur := .ok, outs := r, runs := it.runs + 1, pans := it.pans + 0, ret := some .nil }, ?_, by simp [hk], rfl, by simp [svcRuns, Outcome.restarts]⟩
+      rw [base 3]
+      simp [itemIter, itemStep, svcStep, hk, recoverRet, Outcome.isPanic]
+    | canceled =>
+      refine ⟨5, { it with pc := 7, cur := .canceled, outs := r, runs := it.runs + 1, pans := it.pans + 0, ret := some .canceled }, ?_, by simp [hk], rfl, by simp [svcRuns, Outcome.restarts]⟩
+      rw [base 3]
+      simp [itemIter, itemStep, svcStep, hk, recoverRet, Outcome.isPanic]
+    | restart =>
+      let it1 : Item := { it with pc := 1, cur := .restart, outs := r, runs := it.runs + 1, pans := it.pans + 0, ret := some .restart }
+      obtain ⟨n, it', h1, h2, h3, h4⟩ := ih it1 (by simp [it1, hk]) rfl rfl
+      refine ⟨n + 1 + 2, it', ?_, h2, h3, by simp [h4, it1, svcRuns, Outcome.restarts]; omega⟩
+      rw [base (n + 1)]
+      rw [itemIter_succ env n _ it1 {} (by simp [itemStep, svcStep, hk, recoverRet, Outcome.isPanic, it1])]
+      exact h1
+    | err =>
+      let it1 : Item := { it with pc := 1, cur := .err, outs := r, runs := it.runs + 1, pans := it.pans + 0, ret := some .err, failCnt := it.failCnt + 1 }
+      obtain ⟨n, it', h1, h2, h3, h4⟩ := ih it1 (by simp [it1, hk]) rfl rfl
+      refine ⟨n + 2 + 2, it', ?_, h2, h3, by simp [h4, it1, svcRuns, Outcome.restarts]; omega⟩
+      rw [base (n + 2)]
+      rw [itemIter_succ env (n + 1) _ { it1 with pc := 4 } {} (by simp [itemStep, svcStep, hk, recoverRet, Outcome.isPanic, it1])]
+      rw [itemIter_succ env n _ it1 {} (by simp [itemStep, svcStep, hk, it1])]
+      exact h1
+    | panic v =>
+      let it1 : Item := { it with pc := 1, cur := .panic v, outs := r, runs := it.runs + 1, pans := it.pans + 1, ret := some (.panicErr (panicReport .worker v)), reps := it.reps + 1, failCnt := it.failCnt + 1 }
+      obtain ⟨n, it', h1, h2, h3, h4⟩ := ih it1 (by simp [it1, hk]) rfl rfl
+      refine ⟨n + 2 + 2, it', ?_, h2, h3, by simp [h4, it1, svcRuns, Outcome.restarts]; omega⟩
+      rw [base (n + 2)]
+      rw [itemIter_succ env (n + 1) _ { it1 with pc := 4 } { rep := some (panicReport .worker v) } (by simp [itemStep, svcStep, hk, recoverRet, recovered_ne_nil, Outcome.isPanic, it1])]
+      rw [itemIter_succ env n _ it1 {} (by simp [itemStep, svcStep, hk, it1])]
+      exact h1
+
 /-! ### lifecycle passes -/
 
 theorem passFirstErr_of_mem {rs : List CtrlRet} {r : CtrlRet} (hm : r ∈ rs) (he : r.isErr = true) :
